@@ -62,7 +62,7 @@ static const struct { const char *pfx; enum kind k; } KTAB[] = {
     { "bput", K_BPUT }, { "bget", K_BGET }, { "oqput", K_OQPUT }, { "oqget", K_OQGET },
     { "pqput", K_PQPUT }, { "pqget", K_PQGET }, { "pqcancel", K_PQCANCEL }, { "pqreprio", K_PQREPRIO },
     { "cwait", K_CWAIT }, { "csig", K_CSIG }, { "setx", K_SETX }, { "ccancel", K_CCANCEL },
-    { "cremove", K_CREMOVE }, { "csub", K_CSUB }, { "cunsub", K_CUNSUB }, { "evsched", K_EVSCHED }, { "evcancel", K_EVCANCEL },
+    { "cremove", K_CREMOVE }, { "csubb", K_CSUBB }, { "cunsubb", K_CUNSUBB }, { "csub", K_CSUB }, { "cunsub", K_CUNSUB }, { "evsched", K_EVSCHED }, { "evcancel", K_EVCANCEL },
     { "recon", K_RECON }, { "recoff", K_RECOFF }, { "start", K_START }, { "nop", K_NOP },
     { NULL, K_NOP }
 };
@@ -386,6 +386,10 @@ static bool enabled(int p, const struct opdef *od)
         return D.has_cond && D.nres > 0 && D.sub_res == 0;
     case K_CUNSUB:
         return D.has_cond && D.nres > 0 && D.sub_res != 0;
+    case K_CSUBB:
+        return D.has_cond && D.nres > 0 && !D.sub_b;
+    case K_CUNSUBB:
+        return D.has_cond && D.nres > 0 && D.sub_b;
     case K_EVSCHED:
         return D.envev[0] == 0 || D.envev[1] == 0
                || !cmb_event_is_scheduled(D.envev[0]) || !cmb_event_is_scheduled(D.envev[1]);
@@ -550,7 +554,7 @@ static uint64_t canon_hash(void)
     for (int k = 0; k < NENVEV; k++) {
         h = vx_mix(h, (uint64_t)(D.envev[k] != 0 && cmb_event_is_scheduled(D.envev[k])));
     }
-    h = vx_mix(h, (uint64_t)D.rec_state * 4 + (uint64_t)D.sub_res);
+    h = vx_mix(h, (uint64_t)D.rec_state * 8 + (uint64_t)D.sub_res * 2 + (uint64_t)D.sub_b);
     for (int m = 0; m < nmons; m++) {
         if (mons[m]->hash) {
             h = vx_mix(h, mons[m]->hash());
@@ -801,6 +805,17 @@ static int64_t do_op(int p, const struct opdef *od)
     case K_CSUB:
         cmb_condition_subscribe(&D.cond, &D.res[0].guard);
         D.sub_res = 2;
+        break;
+    case K_CSUBB:
+        cmb_condition_subscribe(&D.cond_b, &D.res[0].guard);
+        D.sub_b = true;
+        break;
+    case K_CUNSUBB:
+        ret = cmb_condition_unsubscribe(&D.cond_b, &D.res[0].guard);
+        if (!ret) {
+            VFAIL("c13:unsubscribe-return-value", "unsubscribing the second condition from the guard it observes returned false");
+        }
+        D.sub_b = false;
         break;
     case K_CUNSUB:
         ret = cmb_condition_unsubscribe(&D.cond, &D.res[0].guard);
@@ -1170,8 +1185,10 @@ static void run_one(void)
         cmb_priorityqueue_initialize(&D.pq, "PQ", D.pq_cap);
     }
     if (D.has_cond) {
-        if (!reused) { memset(&D.cond, 0, sizeof D.cond); }
+        if (!reused) { memset(&D.cond, 0, sizeof D.cond); memset(&D.cond_b, 0, sizeof D.cond_b); }
         cmb_condition_initialize(&D.cond, "COND");
+        cmb_condition_initialize(&D.cond_b, "CONDB");
+        D.sub_b = false;
         const char *sub = vx_opt("subscribe", "");
         D.sub_res = 0;
         D.sub_pool = false;
@@ -1307,6 +1324,7 @@ static void terminate_objects(bool raw)
     }
     if (D.has_cond) {
         cmb_condition_terminate(&D.cond);
+        cmb_condition_terminate(&D.cond_b);
     }
 }
 
